@@ -17,7 +17,7 @@ RULE = ('flows that are random DAGs over 1-8 steps (quick cases 0..1091: every D
         'on steps in deeper compartments, 1-3 timed processes with different timesteps so that batches differ; '
         '2-4 run_for/update calls; non-trivial = >=3 steps with >=1 dependency edge (or a deriver) and >=3 phases; '
         'distinct = distinct case spec')
-PLAN = {'quick': {'n': 3200, 'min_cases': 600}, 'thorough': {'n': 100000, 'min_cases': 10000}}
+PLAN = {'quick': {'n': 8000, 'min_cases': 600}, 'thorough': {'n': 100000, 'min_cases': 10000}}
 REQUIRED_ORACLES = ['phase_per_batch', 'once_per_phase', 'timestep_zero', 'sees_ancestors', 'not_descendants',
                     'generation_same_view', 'derivers_first_in_order', 'sees_batch_process_updates']
 ANCHORS = ['vivarium.core.engine:_StepGraph.get_execution_layers', 'vivarium.core.engine:_StepGraph.add',
